@@ -372,10 +372,17 @@ def real_scenario(ck, idx, kind, depth, fanout, limit, ignore, which, results):
         else:
             ok = K.wait_until(ready, 30)
             res['tree_ready'] = ok
-            time.sleep(0.05)
+            # the property is about an interrupt *while ReBench waits for the benchmark process*: give the main
+            # thread of the rebench child time to reach Thread.join even on a heavily loaded machine (an
+            # interrupt in the few instructions between thread.start() and the join is outside the model, see
+            # the claim's note), and make sure it is asleep before the signal is sent
+            time.sleep(0.4)
+            K.wait_until(lambda: K.main_thread_sleeping(sess.pid), 5)
             sess.signal(signal.SIGINT if kind == 'INT' else signal.SIGTERM)
             rc = sess.wait(30)
         res['exit'] = rc
+        if rc is None:
+            res['diagnostics'] = K.thread_diagnostics(sess.pid)
         pids, marks = K.read_log(log)
         pids = [p for p in pids if p != sess.pid]
         res['pids'] = pids
@@ -435,7 +442,7 @@ def check_real(ck, plans):
             ck.notes.append('real scenario %d: tree incomplete when the deadline/signal came (%d of %d nodes)'
                             % (res['idx'], res['nodes_recorded'], res['expected_nodes']))
         detail = dict((k, res.get(k)) for k in ('exit', 'pids', 'alive', 'rows', 'normal_done', 'late_output',
-                                                'cleaned_up', 'output_tail'))
+                                                'cleaned_up', 'output_tail', 'diagnostics', 'tree_ready'))
         if res['exit'] is None:
             ck.oracle_fail('rebench_exits', inp, detail, signature={'clause': 'rebench_exits', 'kind': kind})
             continue
